@@ -959,6 +959,27 @@ theorem table_typemap_pairs :
     typemapConv.any (fun r => r.2.1 == 1) = true ∧ typemapConv.any (fun r => r.1 == 1) = true := by
   decide +kernel
 
+/-- **constness of recovered class arguments**: every line that recovers a class instance from its
+    capsule declares the C++ pointer and casts the capsule's address with the parameter's
+    `{c_const}` (so a `const T &` / `const T *` parameter is passed as const and a call overloaded on
+    constness reaches the overload the C name is documented for) -/
+theorem table_capsule_recovery_keeps_const :
+    (entries.all fun e => e.pre.all fun l => l.1 != opCapsuleAddr || l.2 == [2, 1, 1, 1]) = true ∧
+    (entries.any fun e => e.pre.any fun l => l.1 == opCapsuleAddr) = true := by
+  decide +kernel
+
+def isComplexPair (c x : List Nat) : Bool :=
+  let base := c.take (c.length - complexSuffix.length)
+  c == base ++ complexSuffix && x == complexPrefix ++ base ++ [62]
+
+/-- **C type = C++ type**: every predefined typemap that crosses the boundary without a conversion is
+    declared with the same type on both sides (same width and signedness: identical spelling), except
+    the documented C99 / C++ complex pair `T complex` / `std::complex<T>` -/
+theorem c_type_is_cxx_type :
+    (typemapTypes.all fun r => if r.1 = 0 then r.2.1 == r.2.2 else isComplexPair r.2.1 r.2.2) = true ∧
+    20 ≤ typemapTypes.length := by
+  decide +kernel
+
 /-- the tree built by `buildTree` (= update_stmt_tree) holds entry `i` exactly at key `i` -/
 theorem table_tree_entries :
     ((List.range keys.length).all fun i => entryAt tree (keys.getD i []) == some i) = true := by
